@@ -11,5 +11,6 @@ fn main() {
     hcommon::run_main(&[
         ("extract", etrade_mode::handle_extract),
         ("acbparse", etrade_mode::handle_acbparse),
+        ("parsetext", etrade_mode::handle_parsetext),
     ]);
 }
